@@ -10,7 +10,9 @@ def bodies(b, keep=('sent',)):
     n = b['n']
     for i, x in enumerate(n):
         yield dict(b, n=n[:i] + n[i + 1:])
-        if x['k'] not in keep:
+        guard = x['k'] == 'if' and 'RC' in x['conds'][0]['c'].get(
+            'site', '')[:3]       # never unguard a bounded recursion
+        if x['k'] not in keep and not guard:
             for sub, _ in E.child_bodies(x):
                 yield dict(b, n=n[:i] + sub['n'] + n[i + 1:])
     for i, x in enumerate(n):
